@@ -43,6 +43,9 @@ var c03NameOrder = []string{"plain", "space", "percent", "hash", "backslash", "u
 
 func c03Entry(item string, i int, nameClass string) model.Entry {
 	base := fmt.Sprintf("/opt/c03/%d-", i)
+	if strings.HasPrefix(item, "size:") {
+		return model.Entry{Src: "sizes/s" + strings.TrimPrefix(item, "size:") + ".bin", Dst: base + "sized.bin"}
+	}
 	name := item
 	if i == 0 && nameClass != "" && nameClass != "plain" {
 		name = c03Names[nameClass]
@@ -72,6 +75,8 @@ func c03Entry(item string, i int, nameClass string) model.Entry {
 		return model.Entry{Src: "etc/app.conf", Dst: base + name, Type: "config"}
 	case "ghost":
 		return model.Entry{Dst: base + name, Type: "ghost"}
+	case "sizes-tree":
+		return model.Entry{Src: "sizes", Dst: base + name, Type: "tree"}
 	case "frac-file":
 		return model.Entry{Src: "share/f1024.bin", Dst: base + name, MTime: EntryMTime.Add(750 * time.Millisecond)}
 	case "frac-config":
@@ -165,6 +170,23 @@ func init() {
 					}
 					if !yield(C03Case{Shape: nil, Setting: s}) {
 						return
+					}
+				}
+			}
+			// file sizes on block, buffer and streaming-threshold boundaries (sizes, digests and size sums must follow)
+			for _, s := range sets {
+				for _, n := range fixture.BoundarySizes {
+					it := fmt.Sprintf("size:%d", n)
+					if !yield(C03Case{Shape: []string{it}, Setting: s}) {
+						return
+					}
+					if s.Name == "default" {
+						if !yield(C03Case{Shape: []string{it, "symlink"}, Setting: s}) {
+							return
+						}
+						if !yield(C03Case{Shape: []string{it, "dir", "f1"}, Setting: s}) {
+							return
+						}
 					}
 				}
 			}
